@@ -683,6 +683,7 @@ impl Vrps {
                                 error!(
                                     "Restarted run failed again. Aborting."
                                 );
+                                return Err(ExitError::Generic)
                             }
                             if engine.sanitize().is_ok() {
                                 once = true;
